@@ -1,6 +1,8 @@
 package props
 
 import (
+	"time"
+
 	"verif/engine/internal/core"
 	. "verif/engine/internal/smt"
 	"verif/engine/internal/sym"
@@ -62,5 +64,6 @@ func SafetyJobs(w *core.World, rep *core.Report, keys []string) []Job {
 func c14(w *core.World, rep *core.Report) {
 	std(rep)
 	rep.Explain = "Safety-only contracts (requires true / receiver non-nil; no assumption on the bytes or strings): every index, slice expression, nil dereference, division, make size and library precondition in each helper is an obligation over a fully symbolic input of symbolic length; loops carry a variant (termination) and the invariants needed for the bounds."
+	QuickTimeout = 40 * time.Second // the functional clauses of the SUCI getters ride along and take up to 8 s alone
 	RunJobs(w, rep, SafetyJobs(w, rep, c14Funcs))
 }
